@@ -11,19 +11,21 @@
    (SetPendingAmount / PendingExists / GetPendingAmount / LoadDelegators), so the store is a map
    over (height, addr) pairs; the *iteration* at block height h is modelled on the strings:
    IteratePendingAmounts(h) is State.IterateRange(start, Rangefix(start)) with
-       start = "deleg_p_" ++ FormatInt(h)                     (NO separator after the height)
-   and the clearing write of addMaturedAmountsToBalance goes to the key built from the CURRENT
-   height h (not from the key that was visited).  [in_range] is the byte-wise lexicographic range
-   test of the IAVL iterator, [rangefix] is storage.Rangefix.
+       start = "deleg_p_" ++ FormatInt(h) ++ "_"
+   (the separator after the height was added by /repo commit e19809f; before it the scan of
+   height 2 also visited the keys of heights 20..29: former finding
+   C12.pending_height_prefix_collision) and the clearing write of addMaturedAmountsToBalance goes to
+   the key built from the CURRENT height h (not from the key that was visited).  [in_range] is the
+   byte-wise lexicographic range test of the IAVL iterator, [rangefix] is storage.Rangefix.
    The reward store's IteratePD(h) uses start = "delegRwz_pending_" ++ FormatInt(h) ++ "_".
 
    State.IterateRange collects the keys of the COMMITTED tree and then reads every value through
    the block cache.  Both iterations run in BeginBlock on a fresh deliver state, so all keys of
-   earlier blocks are visible; but the value of key (h,a) is read AFTER the clearing writes issued
-   for keys visited earlier in the same scan.  In byte order every colliding key
-   "deleg_p_<h><more digits>_<a>" precedes "deleg_p_<h>_<a>" (digits < '_'), hence the two phases
-   of [mature]: first the colliding keys, then the keys of height h themselves, read through the
-   writes of phase one. *)
+   earlier blocks are visible; the value of key (h,a) is read AFTER the clearing writes issued for
+   keys visited earlier in the same scan.  [mature] keeps the general two-phase shape (keys of
+   other heights first — in byte order a key "<pfx><h><more digits>_<a>" precedes "<pfx><h>_<a>" —
+   then the keys of height h read through phase one's writes); with exact scans phase one is
+   proved to be empty (proofs/DelegProofs.v, no_scan_collides). *)
 From stdpp Require Import gmap list.
 From Coq Require Import ZArith NArith.
 Local Open Scope Z_scope.
@@ -71,7 +73,7 @@ Definition pkey_str (pfx : bytes) (astr : addr -> bytes) (n : N) (a : addr) : by
   pfx ++ dec n ++ SEP :: astr a.
 (* does the scan of block h visit the key of (n, a) ? *)
 Definition scan_und (astr : addr -> bytes) (h n : N) (a : addr) : bool :=
-  in_range (PFX_P ++ dec h) (pkey_str PFX_P astr n a).
+  in_range (PFX_P ++ dec h ++ [SEP]) (pkey_str PFX_P astr n a).
 Definition scan_rw (astr : addr -> bytes) (h n : N) (a : addr) : bool :=
   in_range (PFX_R ++ dec h ++ [SEP]) (pkey_str PFX_R astr n a).
 
@@ -141,7 +143,7 @@ Inductive op :=
 | Undelegate (a : addr) (amt fee : Z)
 | WithdrawRw (a : addr) (amt fee : Z)
 | Reinvest (a : addr) (amt fee : Z)
-| Donate (a : addr) (amt fee : Z).    (* SENDPOOL to "DelegationPool" (deliver path: no Validate) *)
+| Donate (a : addr) (amt fee : Z).    (* SENDPOOL to "DelegationPool" *)
 
 Definition add_accr (f : addr -> Z) (l : list (addr * Z)) : addr -> Z :=
   fold_left (fun g '(a, v) => fupd g a (g a + v)) l f.
@@ -200,8 +202,10 @@ Definition step (astr : addr -> bytes) (s : st) (o : op) : st * bool :=
                        (pend s) (fupd (rew s) a (rew s a - amt)) (rpend s)
                        (donated s) (und s) (rwd s) (fupd (taken s) a (taken s a + amt))) a fee
   | Donate a amt fee =>
-      (* runSendPool: MinusFromAddress(from), AddToAddress(pool): Plus has no sign check *)
-      if bal s a - amt <? 0 then (s, false)
+      (* runSendPool: Amount.IsValid (amount >= 0; /repo commit 5fba2a6 — before it a negative
+         amount moved money out of the pool: former finding C12.negative_pool_donation), then
+         MinusFromAddress(from), AddToAddress(pool) *)
+      if (amt <? 0) || (bal s a - amt <? 0) then (s, false)
       else charge s (with_tx s (fupd (bal s) a (bal s a - amt)) (pool s + amt) (active s) (pend s)
                        (rew s) (rpend s) (donated s + amt) (und s) (rwd s) (taken s)) a fee
   end.
@@ -215,10 +219,25 @@ Fixpoint results (astr : addr -> bytes) (s : st) (ops : list op) : list bool :=
   end.
 
 (* ---- trigger predicates (boolean, over the input) ---- *)
-(* C12.pending_height_prefix_collision: some block's scan visits a key of another height *)
+(* some block's scan visits a key of another height (former trigger
+   C12.pending_height_prefix_collision; proved to be always false now) *)
 Definition trig_collision (astr : addr -> bytes) (s0 : st) (ops : list op) : bool :=
   collided (run astr s0 ops).
-(* C12.negative_pool_donation: a direct transfer to the pool with a negative amount *)
+(* a direct transfer to the pool with a negative amount (former trigger
+   C12.negative_pool_donation; such a transfer is rejected now) *)
 Definition neg_donation (o : op) : bool :=
   match o with Donate _ amt _ => amt <? 0 | _ => false end.
 Definition trig_neg_donation (ops : list op) : bool := existsb neg_donation ops.
+(* C12.negative_undelegate: NETWORK_UNDELEGATE with a negative amount (neither Validate nor the
+   handler checks the sign: Coin.Minus only fails when the RESULT is negative) *)
+Definition neg_undelegate (o : op) : bool :=
+  match o with Undelegate _ amt _ => amt <? 0 | _ => false end.
+Definition trig_neg_undelegate (ops : list op) : bool := existsb neg_undelegate ops.
+(* C12.negative_reward_withdrawal: REWARDS_WITHDRAW_NETWORK_DELEGATE with a negative amount *)
+Definition neg_withdraw (o : op) : bool :=
+  match o with WithdrawRw _ amt _ => amt <? 0 | _ => false end.
+Definition trig_neg_withdraw (ops : list op) : bool := existsb neg_withdraw ops.
+(* C12.negative_reinvest: REWARDS_REINVEST_NETWORK_DELEGATE with a negative amount *)
+Definition neg_reinvest (o : op) : bool :=
+  match o with Reinvest _ amt _ => amt <? 0 | _ => false end.
+Definition trig_neg_reinvest (ops : list op) : bool := existsb neg_reinvest ops.
